@@ -23,13 +23,19 @@ FieldShift == Rec[1].shift
 
 OpOk(e) ==
   CASE e.op = "roots"    -> RootsOk(e.g) /\ ShiftOk(e.shift, e.s2)
-    \* value k of a transform / an interpolation condition: ys[t] = c(shift * w^k), w = root(lg)
+    \* value k of a transform: ys[t] = c(shift * w^k), w = root(lg).  Forward transforms: c = the input
+    \* coefficients; inverse transforms: c = the returned coefficients, ys = the input value k;
+    \* low-degree extension (LdeOk): c = a witness of length <= maxlen = n whose values on the small
+    \* subgroup are the input ("lde_in") and whose values on the large subgroup / coset are the output
     [] e.op = "evalpt"   -> /\ ModP(e.w) = ModP(Root(e.lg))
                             /\ (e.fs => e.shift = FieldShift)
                             /\ Len(e.c) <= e.maxlen
                             /\ DftOk(e.w, e.k, e.pc, e.wk, e.shift, e.x, e.c, e.acc, e.ys)
     [] e.op = "evalat"   -> EvalAtOk(e.c, e.x, e.acc, e.y)
     [] e.op = "same"     -> SameOk(e.a, e.b)
+    \* self-test of the fast congruence check against the schoolbook oracle of Limbs / GF
+    [] e.op = "mac"      -> MacEq(e.a, e.b, e.s, e.r) /\ MacOk(e.s, e.a, e.b, e.r)
+    [] e.op = "macneg"   -> ~MacEq(e.a, e.b, e.s, e.r) /\ ~MacOk(e.s, e.a, e.b, e.r)
     [] e.op = "polymul"  -> MulOkFull(e.a, e.b, e.r, e.accs)
     [] e.op = "mulpt"    -> MulOkPt(e.a, e.b, e.r, e.x, e.ha, e.hb, e.hr)
     [] e.op = "convk"    -> /\ ConvCoefOk(e.a, e.b, e.k, e.acc) /\ EqF(e.rk, Last(e.acc))
